@@ -30,6 +30,9 @@ func (o wop) String() string {
 	case "indep":
 		return fmt.Sprintf("v%d.append(fresh %d frames)", o.V, o.A)
 	case "asample":
+		if o.A == 1 {
+			return fmt.Sprintf("v%d.appendSample(0)", o.V)
+		}
 		return fmt.Sprintf("v%d.appendSample", o.V)
 	case "stamp":
 		return fmt.Sprintf("write(v%d)", o.V)
@@ -202,6 +205,9 @@ func (w *world) apply(o wop, check bool) (fs []F) {
 	case "asample":
 		v := &w.views[o.V]
 		x := w.next()
+		if o.A == 1 {
+			x = 0 // the value zero, over whatever the cell holds (spare capacity is not always zero)
+		}
 		if pn, msg := dyn.Try(func() { v.b.AppendSample(dyn.Tok(w.t, x)) }); pn {
 			fail("AppendSample", "panic", "panicked: %s", msg)
 			return
